@@ -45,7 +45,18 @@ def run(ctx):
             why = {x["id"]: x["reason"] for x in og["rejected"]}
             ctx.broken.append(("translator omp_owner.py: parallel regions left the owner-computes form: " + ", ".join(info["missing_expected"]),
                                "\n".join(f"{k}: {why.get(k, 'region no longer present')}" for k in info["missing_expected"])))
+    translator_failed = any(b[0].startswith("translator omp_extract.py") for b in ctx.broken)
     ctx.prove(extra_modules=("GMGProofs.Props.C11o",))
+    # dynamic search on the implementation (always cheap; the only search left when the regions no longer have the extractable form):
+    # a race between two iterations of one phase shows as run-to-run / thread-count dependence of the operator's output
+    ctx.also_props = ("C12",)
+    hp = ctx.build_harness("h_par")
+    ctx.pipe([hp, "resid", "40" if (translator_failed or ctx.tier != "quick") else "12"], "par", label="residual-race-probe")
+    if translator_failed:
+        ctx.pipe([hp, "ops", "2", "13", "24"], "par", label="operator-race-probe")
+        if not ctx.failing:
+            tsan(ctx)
+    ctx.also_props = ()
     # search of the regenerated schedule for a concrete conflict (also the replay when the proof breaks)
     bounds = ("10", "20") if ctx.tier == "quick" else ("14", "28")
     ctx.pipe(["true"], f"sched {bounds[0]} {bounds[1]}", label="schedule-search")
